@@ -3778,9 +3778,9 @@ class AllConnGraph(nx.DiGraph):
         src_inds_list = self.nodes[node]['attrs'].src_inds_list
         if not src_inds_list:
             return None
-        elif len(src_inds_list) == 1:
-            return src_inds_list[0].shaped_array()
         else:
+            # index an arange of the source (also for a single indexer: a non-tuple index into a
+            # non-flat multi-dimensional source selects along its first axis)
             root = self.get_root(node)
             root_meta = self.nodes[root]['attrs']
             if root_meta.distributed:
